@@ -39,6 +39,8 @@ def run(tier):
                           first["x"], first["observed"],
                           "%d of %d values of the field are not accepted and returned unchanged (first: %s)" % (o["domain"] - o["ok"], o["domain"], first["x"]))
     rep.cov["traces_validated_against_impl"] += len(sites)
+    # the extension type itself, through the three dispatchers, for all 65536 values
+    common.ext_type_sweep(rep, binary, PROP)
     rep.sample({"site": sites[0]["site"], "fn": sites[0]["fn"], "template": [sites[0]["pre"], sites[0]["w"], sites[0]["suf"]], "field": sites[0]["path"]})
     return rep.finish("model_checking",
                       "sites = 42 (enclosing template, enumerated field) pairs; every site is swept over its whole domain (256 or 65536 "
